@@ -120,9 +120,10 @@ CRecv == /\ pcC = "select" /\ chan # <<>>
               THEN pcC' = "exit" /\ sem' = sem - 1 /\ UNCHANGED <<cTodo, cCur>>
               ELSE pcC' = "iter" /\ cTodo' = Adjacent(Head(chan)) /\ cCur' = 0 /\ UNCHANGED sem
          /\ UNCHANGED <<cfgv, status, cancelled, egErr, mainv, pcW, visits, ret>>
-CDone == /\ pcC = "select" /\ cancelled                 \* <-ctx.Done(): leaves, releasing its errgroup slot
-         /\ pcC' = "exit" /\ sem' = sem - 1
-         /\ UNCHANGED <<cfgv, status, chan, expect, cancelled, egErr, mainv, cTodo, cCur, pcW, visits, ret>>
+CDone == /\ pcC = "select" /\ cancelled                 \* <-ctx.Done(): leaves with the context's error, releasing its errgroup slot
+         /\ pcC' = "exit" /\ sem' = sem - 1                \* (the group keeps the first error: a visitor's, when one failed)
+         /\ egErr' = IF egErr = 0 THEN CtxErr ELSE egErr
+         /\ UNCHANGED <<cfgv, status, chan, expect, cancelled, mainv, cTodo, cCur, pcW, visits, ret>>
 CPick == /\ pcC = "iter"                                \* range over the adjacency map
          /\ IF cTodo = {} THEN pcC' = "select" /\ UNCHANGED <<cTodo, cCur>>
             ELSE \E n \in cTodo : cCur' = n /\ cTodo' = cTodo \ {n} /\ pcC' = "ready"
@@ -196,18 +197,17 @@ DepsFirst == \A n \in Visiting : \A d \in Waits(n) : ~Skip(d) => VisitorReturned
 BoundNoErr == (limit > 0 /\ ~cancelled) => Cardinality(Visiting) <= limit
 BoundAlways == limit > 0 => Cardinality(Visiting) <= limit
 ReturnAfterAll == Terminated => \A n \in Nodes : pcW[n] \in {"none", "gone"}
-\* The statement fixes the result for walks the caller does not cancel.  When the caller cancels (ext), the coordinator
-\* leaves with nil, so the call may return nil although services were never started (observed; outside the statement's
-\* quantifier, recorded in DESIGN 11.7): only the error clauses are kept for those walks.
+\* nil only when all services were visited (whoever cancelled); otherwise the first visitor error, or - when the caller
+\* cancelled and no visitor failed before - the context's error
 ResultOK == Terminated =>
               /\ (ret = "nil") <=> (egErr = 0)
               /\ ret = "err" => \/ (egErr \in fails /\ visits[egErr] = 1)          \* the error of a visitor that ran
                                 \/ (ext /\ egErr = CtxErr)                          \* or, when the caller cancelled, the context's
               /\ ret = "nil" => \A n \in Nodes : ~(n \in fails /\ visits[n] = 1)
-              /\ ~ext => /\ (ret = "nil") <=> (\A n \in Nodes : ~(n \in fails /\ visits[n] = 1))
-                         /\ ret = "nil" => \A n \in Nodes : visits[n] = (IF Skip(n) THEN 0 ELSE 1)
+              /\ ret = "nil" => \A n \in Nodes : visits[n] = (IF Skip(n) THEN 0 ELSE 1)
+              /\ ~ext => (ret = "nil") <=> (\A n \in Nodes : ~(n \in fails /\ visits[n] = 1))
 \* with roots: visited = roots and everything that transitively depends on one
-RootsClosure == (Terminated /\ ret = "nil" /\ after # {} /\ ~ext) =>
+RootsClosure == (Terminated /\ ret = "nil" /\ after # {}) =>
                   {n \in Nodes : visits[n] = 1} = after \cup UNION {Anc(r) : r \in after}
 ChanBounded == Len(chan) <= nn
 NoDeadlock == (ENABLED Next) \/ Terminated
